@@ -10,6 +10,7 @@ import (
 	"encoding/json"
 	"errors"
 	"fmt"
+	"io"
 	"math/rand/v2"
 	"net/http"
 	"path/filepath"
@@ -122,8 +123,9 @@ func TestC16(t *testing.T) {
 		for i := 0; i < r.N(40, 400); i++ {
 			realClientSlowService(t, r, i)
 		}
+		realClientFailingStatus(t, r)
 	}
-	r.Require("lookups_disabled_cases", "lookups_enabled_cases", "shared_flights", "failed_lookups", "hang_bounded_callers", "retry_after_foreign_cancel", "successful_lookups", "stress_lookups", "cases_with_failing_cache", "handles_followed_a_later_poll", "updaters_followed_a_later_poll", "real_client_cancel_cases", "overlapping_cache_writes", "real_client_slow_service_cases")
+	r.Require("lookups_disabled_cases", "lookups_enabled_cases", "shared_flights", "failed_lookups", "hang_bounded_callers", "retry_after_foreign_cancel", "successful_lookups", "stress_lookups", "cases_with_failing_cache", "handles_followed_a_later_poll", "updaters_followed_a_later_poll", "real_client_cancel_cases", "overlapping_cache_writes", "real_client_slow_service_cases", "lookups_after_the_service_recovered", "real_client_failing_status_cases")
 	r.Rule("seeded cases: AllowLookup on/off; 1-2 undeclared names each with a service mode (ok, slow D, fail, fail-then-ok, hang for ever, not found) and 1-6 callers (LookupSecret / NewUpdater / Fields.Apply) with start offsets and contexts (background, deadline 1 s/1 min/10 min, cancelled at a random instant). Distinct = (AllowLookup, service mode, number of callers, set of context kinds, set of caller outcomes)")
 }
 
@@ -148,6 +150,8 @@ func runCase(t *testing.T, r *evid.Run, c *tcase) {
 			}
 		}
 		attempts := map[string]int{}
+		var holds []chan struct{}
+		recovered := false // the hanging service has come back
 		svc.Behave = func(q *fakesvc.Req) fakesvc.Behaviour {
 			nc := modes[q.Name]
 			if nc == nil || q.Cond {
@@ -164,10 +168,22 @@ func runCase(t *testing.T, r *evid.Run, c *tcase) {
 					return fakesvc.Behaviour{Fail: fakesvc.ErrInjected}
 				}
 			case "hang":
-				return fakesvc.Behaviour{Hold: make(chan struct{})}
+				if recovered {
+					return fakesvc.Behaviour{}
+				}
+				hc := make(chan struct{})
+				holds = append(holds, hc)
+				return fakesvc.Behaviour{Hold: hc}
 			}
 			return fakesvc.Behaviour{}
 		}
+		// whatever is still parked in the service when the case ends is let go (a request nobody cancels
+		// would otherwise outlive the bubble)
+		defer func() {
+			for _, hc := range holds {
+				close(hc)
+			}
+		}()
 		cache := &fakesvc.MonCache{}
 		if c.CacheFails {
 			// a cache that cannot be written must not turn a successful lookup into a failure
@@ -468,6 +484,27 @@ func runCase(t *testing.T, r *evid.Run, c *tcase) {
 				}
 			}
 		}
+		// the service recovers: a lookup that hung and was given up on is simply asked again by the next caller,
+		// with a request of its own (nothing dead is left behind for it to join)
+		if c.AllowLookup {
+			for _, nc := range c.Names {
+				if nc.Mode != "hang" {
+					continue
+				}
+				recovered = true
+				before := svc.NumRequests()
+				lctx, lcancel := context.WithTimeout(context.Background(), 30*time.Second)
+				h, lerr := st.LookupSecret(lctx, nc.Name)
+				lcancel()
+				r.Count("lookups_after_the_service_recovered", 1)
+				if lerr != nil || h == nil || string(h.Get()) != string(value(nc.Name)) {
+					fail("lookup-after-recovery-fails", fmt.Sprintf("the service hung on %q, every caller has long returned, the service answers again: a new lookup sent %d request(s) and got %v", nc.Name, svc.NumRequests()-before, lerr), map[string]any{"log": svc.Log()})
+				}
+				recovered = false
+				break
+			}
+		}
+
 		if c.AllowLookup {
 			r.Count("lookups_enabled_cases", 1)
 		} else {
@@ -874,4 +911,80 @@ func realClientSlowService(t *testing.T, r *evid.Run, idx int) {
 			r.Violation("lookup-unbounded", idx, fmt.Sprintf("%s: the caller had no deadline and was answered only after %v", what, took), nil)
 		}
 	})
+}
+
+// realClientFailingStatus: the REAL network client; the service (or something in front of it) fails a lookup
+// with an HTTP status. Whatever the status, the failure is reported to the caller of that lookup, after ONE
+// request; asking again is the caller's decision (and then works, with one more request).
+func realClientFailingStatus(t *testing.T, r *evid.Run) {
+	dir := evid.TempDir(t)
+	d, err := realdb.Open(filepath.Join(dir, "status.db"), realdb.DummyKey("c16"))
+	if err != nil {
+		t.Fatal(err)
+	}
+	su := realdb.Super()
+	d.Put(su, "known", []byte("k"))
+	d.Put(su, "wanted", []byte("wanted-value"))
+	srv, err := httpdrv.New(d)
+	if err != nil {
+		t.Fatal(err)
+	}
+	const addr = "100.64.0.16:18"
+	srv.SetWho(addr, httpdrv.Who{Login: "c16@verif", Node: "c16", Rules: []refmodel.Rule{{Actions: []string{"get"}, Patterns: []string{"*"}}}})
+	inner := srv.ClientDo(addr)
+	for _, status := range []int{500, 502, 503, 504, 429, 408, 400, 301} {
+		for _, via := range []string{"lookup", "updater"} {
+			var mu sync.Mutex
+			n, failFirst := 0, false
+			do := func(req *http.Request) (*http.Response, error) {
+				if failFirst && strings.HasSuffix(req.URL.Path, "/api/get") {
+					mu.Lock()
+					n++
+					first := n == 1
+					mu.Unlock()
+					if first {
+						return &http.Response{StatusCode: status, Status: fmt.Sprint(status), Header: http.Header{"Content-Type": {"text/plain"}}, Body: io.NopCloser(strings.NewReader("upstream trouble")),
+							Request: req, Proto: "HTTP/1.1", ProtoMajor: 1, ProtoMinor: 1}, nil
+					}
+				}
+				return inner(req)
+			}
+			st, err := setec.NewStore(context.Background(), setec.StoreConfig{Client: setec.Client{Server: "http://setec.verif", DoHTTP: do}, Secrets: []string{"known"}, AllowLookup: true, PollInterval: -1, Logf: func(string, ...any) {}})
+			if err != nil {
+				t.Fatal(err)
+			}
+			failFirst = true
+			call := func() error {
+				ctx, cancel := context.WithTimeout(context.Background(), 20*time.Second)
+				defer cancel()
+				if via == "updater" {
+					_, err := setec.NewUpdater(ctx, st, "wanted", func(b []byte) (string, error) { return string(b), nil })
+					return err
+				}
+				_, err := st.LookupSecret(ctx, "wanted")
+				return err
+			}
+			err1 := call()
+			mu.Lock()
+			n1 := n
+			mu.Unlock()
+			r.Eval(1)
+			r.Count("real_client_failing_status_cases", 1)
+			r.Distinct(fmt.Sprintf("real client, lookup answered %d, via %s", status, via))
+			what := fmt.Sprintf("real client: the lookup (%s) of an unknown name is answered with status %d", via, status)
+			switch {
+			case n1 != 1:
+				r.Violation("automatic-retry", -1, fmt.Sprintf("%s: one call caused %d requests", what, n1), nil)
+			case err1 == nil:
+				r.Violation("failed-lookup-not-reported", -1, what+": the caller was told nothing of it", nil)
+			default:
+				if err2 := call(); err2 != nil {
+					r.Violation("lookup-after-recovery-fails", -1, fmt.Sprintf("%s; the caller asks again and the service answers properly now, but: %v", what, err2), nil)
+				} else if h := st.Secret("wanted"); h == nil || string(h.Get()) != "wanted-value" {
+					r.Violation("handle-wrong-bytes", -1, what+": after the second call the secret is not served", nil)
+				}
+			}
+			st.Close()
+		}
+	}
 }
